@@ -105,8 +105,6 @@ def make_add_measures(q, ts0, ts1, existing, pin_t1=False):
             require(0 <= ms)
             require(1 <= ml <= bar0)
             require(ms + ml <= end)
-            if ts1:
-                require(ms + ml <= t1 or ms >= t1)  # an existing measure does not straddle the signature change
             ex = S.Measure(number=99)
             part.add(ex, ms, ms + ml)
         must_not_raise(S.add_measures, part, _what="add_measures")
@@ -131,8 +129,8 @@ def make_add_measures(q, ts0, ts1, existing, pin_t1=False):
                 cut = (m.end.t == end) or (ts1 and m.end.t == t1) or (ex is not None and m.end.t == ex.start.t)
                 check(cut, "short measure that is not cut by the end, a signature change or an existing measure",
                       m.start.t, m.end.t)
-            if ts1:
-                check(not (m.start.t < t1 and m.end.t > t1), "measure straddles a time-signature change", m.start.t, m.end.t, t1)
+            if ts1 and m is not ex:
+                check(not (m.start.t < t1 and m.end.t > t1), "added measure straddles a time-signature change", m.start.t, m.end.t, t1)
         return [[int(m.start.t), int(m.end.t), int(m.number)] for m in meas]
 
     h.__signature__ = inspect.Signature([inspect.Parameter(n, inspect.Parameter.KEYWORD_ONLY, annotation=int) for n in names])
@@ -224,7 +222,8 @@ DIVS_T = [1, 2, 3, 4, 5, 6, 8, 10, 12, 16, 24, 32, 48, 96, 120, 240, 480, 960]
 
 def _am_inst(tier):
     out = [{"q": 2, "ts0": [4, 4], "ts1": None, "existing": False}, {"q": 2, "ts0": [3, 4], "ts1": [2, 4], "existing": False, "pin_t1": True},
-           {"q": 4, "ts0": [6, 8], "ts1": None, "existing": True}]
+           {"q": 4, "ts0": [6, 8], "ts1": None, "existing": True},
+           {"q": 1, "ts0": [2, 4], "ts1": [3, 4], "existing": True, "pin_t1": True}]
     if tier != "quick":
         out += [{"q": 2, "ts0": [3, 4], "ts1": [2, 4], "existing": False}, {"q": 1, "ts0": [4, 4], "ts1": [3, 4], "existing": True}, {"q": 3, "ts0": [2, 2], "ts1": None, "existing": True},
                 {"q": 4, "ts0": [5, 8], "ts1": [6, 8], "existing": False}]
@@ -247,7 +246,7 @@ HARNESSES = [
     H("add_measures", make_add_measures, _am_inst, models=MODELS, budget={"quick": 200, "thorough": 900},
       functions=["score.add_measures", "Part.beat_map", "Part.inv_beat_map", "Part.iter_all", "Part.add"],
       bounds="timeline [0,end] with symbolic end <= 3-5 bars, optional second time signature at a symbolic time, "
-             "optional existing measure at a symbolic position (not straddling the change); listed meters/divisions",
+             "optional existing measure at a symbolic position (also across the change); listed meters/divisions",
       outside="fill_rests / find_tuplets / sanitize_part (not encoded); more than two signatures"),
     H("tie_notes", make_tie_notes, _tn_inst, models=[], budget={"quick": 300, "thorough": 1200}, reals_only=False,
       functions=["score.tie_notes", "score.split_note", "music.estimate_symbolic_duration", "music.find_tie_split",
